@@ -41,6 +41,7 @@ def kindOfLine (cfg : Cfg) (unw : List Str) (line : Str) (capture : Bool) : Stri
   | .error _ => "plan-error"
   | .ok p =>
     let pre := if capture then "capture-" else ""
+    if p.commands.any (fun c => (SpecFd.attachedFrom c).tokens.length ≠ c.tokens.length) then "attached-stdin" else
     match p.commands with
     | [] => pre ++ "empty"
     | [c] =>
